@@ -4,8 +4,14 @@ pub mod dot;
 pub mod engine;
 pub mod front;
 pub mod fun;
+pub mod gen;
 pub mod ops;
 pub mod plain;
 pub mod props;
+pub mod rast;
+pub mod rlex;
+pub mod rparse;
+pub mod rprint;
+pub mod rsem;
 pub mod tt;
 pub mod util;
